@@ -45,6 +45,24 @@ TWINS = [
     ('skoolkit/skoolmacro.py', r"        if _writer:\n            params = _writer\.expand\(params, \*_cwd\)\n        if fields is not None:\n            params = _format_params\(params, params, \*\*fields\)\n", "        if _writer:\n            expanded = _writer.expand(params, *_cwd)\n        else:\n            expanded = params\n        if fields is not None:\n            params = _format_params(expanded, expanded, **fields)\n        else:\n            params = expanded\n", 'parse_ints: expanded text through its own variable'),
 ]
 
+# which checks read which source file (a twin is only run against the checks that can see it)
+READERS = {
+    'skoolkit/simulator.py': {'C05', 'C06', 'C07', 'C08', 'C10', 'C13', 'C19', 'C20'},
+    'skoolkit/cmiosimulator.py': {'C05', 'C06', 'C07', 'C08', 'C19'},
+    'c/csimulator.c': {'C05', 'C06', 'C07', 'C08', 'C10', 'C13', 'C19', 'C20'},
+    'skoolkit/snapshot.py': {'C09', 'C10', 'C20'},
+    'skoolkit/trace.py': {'C06', 'C08', 'C10', 'C13', 'C20'},
+    'skoolkit/tape.py': {'C11', 'C12', 'C13'},
+    'skoolkit/bin2tap.py': {'C12'},
+    'skoolkit/image.py': {'C15'},
+    'skoolkit/graphics.py': {'C15'},
+    'skoolkit/snactl.py': {'C14'},
+    'skoolkit/skoolhtml.py': {'C16', 'C17'},
+    'skoolkit/rzxplay.py': {'C10', 'C20'},
+    'skoolkit/loadtracer.py': {'C06', 'C08', 'C10', 'C13', 'C20'},
+    'skoolkit/skoolmacro.py': {'C04', 'C15', 'C16', 'C17'},
+}
+
 def run(prop, mod, repo):
     seeded = os.path.join(VERIF, 'seeded')
     cases = []
@@ -71,6 +89,8 @@ def run(prop, mod, repo):
             jobs.append(('seed', sid, root, 1))
         for i, (rel, pat, rep, desc) in enumerate(TWINS):
             if desc is None:
+                continue
+            if prop not in READERS.get(rel, {prop}):
                 continue
             src_p = os.path.join(repo, rel)
             if not os.path.exists(src_p):
